@@ -77,6 +77,7 @@ class QRStub:
         self.calls = []
         self.fail = fail
         self.real_in_replay = real_in_replay
+        self.by_solver = {}
         self._orig_fit = None
         self._orig_predict = None
         self._sig = None
@@ -111,6 +112,7 @@ class QRStub:
         idx = len(self.calls)
         rec = dict(A, index=idx)
         self.calls.append(rec)
+        self.by_solver.setdefault(id(qself), []).append(rec)
         if self.fail is not None:
             e = self.fail(idx, rec)
             if e is not None:
@@ -172,6 +174,8 @@ class QRStub:
 
     def _predict(self, qself, x):
         x = np.asarray(getattr(x, "values", x))
+        for rec in self.by_solver.get(id(qself), []):
+            rec.setdefault("predict_widths", []).append(x.shape[1] if x.ndim == 2 else None)
         if x.dtype != object:
             if np.any(np.isnan(x)) or np.any(np.isinf(x)):
                 raise ValueError("Array contains NaN or Infinity")
